@@ -112,6 +112,23 @@ rec_total!(c02_install_tag_n8_e33, 8, 10, true, "alloc", |c, d| InstallTag::read
 // @end
 
 
+// Record readers on a header-only input: nothing is left to read.
+fn eof<T>() -> binrw::BinResult<T> {
+    Err(binrw::Error::Io(std::io::Error::from(std::io::ErrorKind::UnexpectedEof)))
+}
+fn tag_eof<R: std::io::Read + std::io::Seek>(_r: &mut R, _e: Endian, _a: u32) -> binrw::BinResult<InstallTag> {
+    eof()
+}
+fn install_entry_eof<R: std::io::Read + std::io::Seek>(_r: &mut R, _e: Endian, _a: (u8, u8)) -> binrw::BinResult<InstallFileEntry> {
+    eof()
+}
+fn download_entry_eof<R: std::io::Read + std::io::Seek>(_r: &mut R, _e: Endian, _a: &DownloadHeader) -> binrw::BinResult<DownloadFileEntry> {
+    eof()
+}
+fn size_entry_eof<R: std::io::Read + std::io::Seek>(_r: &mut R, _e: Endian, _a: &SizeHeader) -> binrw::BinResult<SizeEntry> {
+    eof()
+}
+
 // whole-file parser on a header-only input: no panic, largest single request within the C02 bound
 macro_rules! parse_alloc {
     ($name:ident, $n:expr, $unw:expr, $msg:expr, |$m:ident| $fix:expr, |$d:ident| $call:expr) => {
@@ -138,14 +155,11 @@ macro_rules! parse_alloc {
 
 // ---- whole-file parsers, count fields symbolic (allocation focus) -------------------------------------------
 // @family prop=C02 tier=quick timeout=900 role=manifest-parse-alloc
-// @bounds whole-file parser on a header-only input of concrete length N (name: n<N>): every byte symbolic except that one of the two count fields is zero per harness (name: entries = 32-bit entry count symbolic, tag count 0; tags = 16-bit tag count symbolic, entry count 0) - with both symbolic the run does not finish
+// @bounds whole-file parser on a HEADER-ONLY input (install V1: 10 bytes, download V1: 11 bytes with the version byte fixed to 1, size V2: 15 bytes with the version byte fixed to 2): every other byte symbolic, in particular the 32-bit entry count and the 16-bit tag count
 // @encodes cascette_formats::install::manifest::InstallManifest::parse, cascette_formats::download::manifest::DownloadManifest::parse, cascette_formats::size::manifest::SizeManifest::parse
-// @assumes std::fmt::format stubbed; allocator spy records the largest single request
+// @assumes the two looping record readers (InstallTag::read_options - shared by all three manifests - and InstallFileEntry::read_options) are replaced by "unexpected end of file": exact for a header-only input (no byte is left for any record), and it keeps the model checker out of the record readers (with them the run does not finish in 15 min); std::fmt::format stubbed; allocator spy records the largest single request
 // @catches regression of the reservation bounds (patches install_manifest / download_manifest / size_manifest): Vec::with_capacity(header.entry_count / tag_count) with the count an unchecked field of the input (10..19-byte input requesting up to hundreds of GB); any later regression that sizes a buffer from a count field before checking the remaining input
-parse_alloc!(c02_install_parse_alloc_entries_n10, 10, 5, "install manifest parse: entry reservation out of proportion to input", |d| { d[4] = 0; d[5] = 0; }, |d| InstallManifest::parse(&d));
-parse_alloc!(c02_install_parse_alloc_tags_n10, 10, 5, "install manifest parse: tag reservation out of proportion to input", |d| { d[6] = 0; d[7] = 0; d[8] = 0; d[9] = 0; }, |d| InstallManifest::parse(&d));
-parse_alloc!(c02_download_parse_alloc_entries_n11, 11, 5, "download manifest parse: entry reservation out of proportion to input", |d| { d[9] = 0; d[10] = 0; }, |d| DownloadManifest::parse(&d));
-parse_alloc!(c02_download_parse_alloc_tags_n11, 11, 5, "download manifest parse: tag reservation out of proportion to input", |d| { d[5] = 0; d[6] = 0; d[7] = 0; d[8] = 0; }, |d| DownloadManifest::parse(&d));
-parse_alloc!(c02_size_parse_alloc_entries_n15, 15, 5, "size manifest parse: entry reservation out of proportion to input", |d| { d[8] = 0; d[9] = 0; }, |d| SizeManifest::parse(&d));
-parse_alloc!(c02_size_parse_alloc_tags_n15, 15, 5, "size manifest parse: tag reservation out of proportion to input", |d| { d[4] = 0; d[5] = 0; d[6] = 0; d[7] = 0; }, |d| SizeManifest::parse(&d));
+parse_alloc!(c02_install_parse_alloc_n10, 10, 5, "install manifest parse: tag / entry reservation out of proportion to input", |d| (), |d| InstallManifest::parse(&d));
+parse_alloc!(c02_download_parse_alloc_n11, 11, 5, "download manifest parse: entry / tag reservation out of proportion to input", |d| { d[2] = 1; }, |d| DownloadManifest::parse(&d));
+parse_alloc!(c02_size_parse_alloc_n15, 15, 5, "size manifest parse: tag / entry reservation out of proportion to input", |d| { d[2] = 2; }, |d| SizeManifest::parse(&d));
 // @end
